@@ -257,7 +257,6 @@ class Parser:
         self.in_recursive_rule = 0
 
         # handle path literal joined-str
-        self._path_token: TokenInfo | None = None
 
         # Pass through common tokenizer methods.
         self._mark = self._tokenizer.mark
@@ -572,7 +571,8 @@ class Parser:
                 end_col_offset=end[1] if end else values[-1].end_col_offset,
             )
 
-        if path_tok := (path_tok or self._path_token):
+        # the p prefix of an f-string part is recorded on that part's own node (see handle_fstring)
+        if path_tok or any(getattr(p, "_xonsh_path_prefix", False) for p in parts):
             locs = {
                 "lineno": node.lineno,
                 "col_offset": node.col_offset,
@@ -580,7 +580,6 @@ class Parser:
                 "end_col_offset": node.end_col_offset,
             }
             node = xonsh_call("__xonsh__.path_literal", node, **locs)  # type: ignore[arg-type]
-            self._path_token = None
         return node
 
     def pattern_string(self, node: ast.expr) -> ast.expr:
@@ -592,11 +591,12 @@ class Parser:
     def handle_fstring(
         self, a: TokenInfo, b: list[ast.FormattedValue | ast.Constant], **locs: int
     ) -> ast.JoinedStr:
-        path_tok = self._strip_path_prefix(a)
-        if path_tok:
-            self._path_token = path_tok
         self._decode_fstring_parts(b, raw="r" in a.string.rstrip("'\"").lower())
-        return ast.JoinedStr(values=b, **locs)
+        node = ast.JoinedStr(values=b, **locs)
+        # a parser-wide flag would be picked up by whichever concatenation finishes next (a string nested in a
+        # replacement field, a later statement after a failed alternative), so the prefix travels with the node
+        node._xonsh_path_prefix = self._strip_path_prefix(a) is not None  # type: ignore[attr-defined]
+        return node
 
     def formatted_value(
         self,
